@@ -262,6 +262,26 @@ def run(tier):
             rep.coverage["macro_names_still_present_as_identifiers"] = surv
     finally:
         shutil.rmtree(d, ignore_errors=True)
+    # (4) generated macro sets: the whole pipeline (cleanup_macros, patch_macros, pcpp x2, do-while removal) against GNU cpp
+    from .. import c20_generated as G
+    rng = random.Random(framework.seed() + 20)
+    sets = G.macro_sets(rng, 24 if thorough else 6)
+    inc, h, mm, patches, sc = sets[0]
+    star = (inc, h + "#define fMUL(A) ((A) \\\n    * 2)\n#define fCOM(A) ((A) /* mid */ + 1)\n", mm, patches,
+            sc + "DEF_SHORTCODE(T8_mul, { RdV = fMUL(RsV) + fCOM(RtV); })\n")
+    ngen = 0
+    for r in framework.pmap(G.check_case, [(corpus.REPO, f, i) for i, f in enumerate(sets)] + [(corpus.REPO, star, "star-continuation")]):
+        ngen += 1
+        key = f"generated:{r['idx']}"
+        if r["status"] == "ok":
+            rep.add(key, "ok")
+        elif r["status"] == "differs":
+            rep.add(key, "violation", "differs", r["detail"], files=r["files"])
+        else:
+            rep.add(key, "inconclusive", r["status"], r["detail"])
+    rep.coverage["generated_macro_sets"] = dict(cases=ngen, note="guards, includes, line/block comments (also indented on continuation lines), "
+                                                 "continuations, duplicate definitions, patches incl. user-only ones; oracle: GNU cpp with "
+                                                 "patches applied as #undef + definition; enumerated, not solved")
     # encoder validation
     nval = 0
     for t in ["{ do { x; } while (0); }", "@do {kdo{} while (0)", "do{a}while(0) do {b} while (0)", "undo { } while (0)", "abc"]:
@@ -283,6 +303,7 @@ def run(tier):
         evaluations=3 + len(LOOKALIKES) + len(res) + nlines, distinct_nontrivial=nlines // 2 + len(LOOKALIKES), conditions_confirmed=nconf,
         encoder_validations=nval, rule="one solver query set per wrapper shape; one CrossHair condition; one item per (tool, instruction)")
     rep.samples = ["A 'do' ws '{' X '}' ws 'while' ws '(0)' B '\\n' (A, X, B free fragments)", LOOKALIKES[0], LOOKALIKES[5]]
-    rep.assumptions = ["cleanup_macros and pcpp's fixpoint on GENERATED macro files are outside the claim (file-driven state machine + third-party "
-                       "preprocessor); they are covered only on the bundled files", "free fragments exclude the letters o and w (no further do/while)"]
+    rep.assumptions = ["cleanup_macros and pcpp on generated macro files are covered by template-generated macro sets against GNU cpp "
+                       "(enumeration; no engine here encodes the file-driven state machine or the third-party preprocessor symbolically)",
+                       "free fragments exclude the letters o and w (no further do/while)"]
     return rep.finish({"bundled lines agreeing with independent preprocessors": (nlines, 4000)})
